@@ -24,12 +24,14 @@ prop(
     level_note="A nonce that is a proper suffix of password||nonce names the same plaintext as (longer password, shorter "
                "nonce); the format cannot tell these apart, so such decrypts are only required to be consistent and are "
                "counted (wrong_nonce_is_suffix_of_plaintext). An inconsistent length prefix that is accepted is counted, "
-               "not flagged. The thorough tier repeats a tenth of the workload on an AddressSanitizer build (nightly, -Zsanitizer=address; OpenSSL itself is not instrumented, so only overflows on the Rust side of the FFI buffers are visible); the driver first requires ASan to flag a deliberate out-of-bounds read. "
+               "not flagged. The thorough tier repeats a tenth of the workload on an AddressSanitizer build (nightly, -Zsanitizer=address; OpenSSL itself is not instrumented, so only overflows on the Rust side of the FFI buffers are visible); the driver first requires ASan to flag a deliberate out-of-bounds read. A hundredth of it also runs under valgrind memcheck on the plain build (addressability errors only), which does see inside libcrypto. "
                "Trusted: the 15-line plaintext reference in harness/crates/crypto/src/p_crypto.rs and OpenSSL itself.",
     shards={"quick": 8, "thorough": 16},
     timeout={"quick": 600, "thorough": 3600},
     # thorough: a tenth of the workload again under AddressSanitizer (the OAEP-SHA256 path is the repository's only unsafe FFI)
-    instrument={"thorough": [{"tool": "asan", "scale": 0.1, "shards": 8, "timeout": 1800}]},
+    instrument={"thorough": [{"tool": "asan", "scale": 0.1, "shards": 8, "timeout": 1800},
+                             # memcheck on the plain build also watches the OpenSSL side of the FFI (addressability only)
+                             {"tool": "valgrind", "scale": 0.01, "shards": 8, "timeout": 1800}]},
 )
 
 prop(
